@@ -441,6 +441,19 @@ var ccHosts = []string{
 	`tab\009ctl.example`, "пример.рф", "ünï.example", "emoji😀.example", "sep\u2028line\u2029.example",
 	"bad\xff\xfeutf8.example", "cut\xe2\x80", "ctl\x01\x1f\x7f.example", "sl/ash.example", "xn--e1afmkfd.example",
 	"EXAMPLE.io", "", "q\"raw.example", "f0\xf0\x90\x80.example", "ed\xed\xa0\x80surrogate.example",
+	// U+212A (Kelvin sign) and U+017F (long s): the non-ASCII code points whose simple fold is an ASCII letter
+	"\u212a9.\u017fet.example", "kelvin.my-kitchen.example",
+}
+
+// ccFoldTerms: terms for the two hosts above: equal under strings.EqualFold
+// (rune-wise), but never inside a window of the term's byte length; and terms
+// starting with k / s against an upper-case letter past the start (the
+// stringutil.ContainsFold defect repaired as f792c49).
+var ccFoldTerms = map[string][]ccQ{
+	"\u212a9.\u017fet.example": {{v: "k9.set.example", strict: true}, {v: "K9.SET.EXAMPLE", strict: true}, {v: "k9"}, {v: "9.\u017fet"},
+		{v: "\u017fet.e"}, {v: "set"}, {v: "\u212a9.\u017fet.example", strict: true}, {v: "k9.\u017fet.example", strict: true}},
+	"kelvin.my-kitchen.example": {{v: "\u212aelvin.my-kitchen.example", strict: true}, {v: "\u212aelvin"}, {v: "KITCHEN"}, {v: "kitchen"},
+		{v: "Kelvin.My-Kitchen.Example", strict: true}, {v: "my-\u212aitchen"}},
 }
 
 var ccTexts = []string{
@@ -645,6 +658,10 @@ func TestVerifC07Codec(t *testing.T) {
 		qs = append(qs, ccQ{v: "&b"}, ccQ{v: "<y"})
 		if ccASCII(host) {
 			qs = append(qs, ccQ{v: host, strict: true})
+		}
+		if ft := ccFoldTerms[host]; ft != nil {
+			qs = append(qs, ft...)
+			cls["fold-kelvin-long-s"] = true
 		}
 		h.line("generated", e, ccMarshal(t, e), qs, cls)
 	}
